@@ -162,6 +162,9 @@ ExpectAt(q) == IF IsErr(q.v) THEN [kind |-> "err", why |-> q.v.why]
 Misses(v) == IF v.g = "struct" THEN {[p |-> "." \o f.n, v |-> Err("unexported field is not reachable")] : f \in {v.fs[i] : i \in {j \in 1..Len(v.fs) : ~v.fs[j].x}}}
                                     \cup {[p |-> ".nope", v |-> Err("no such field")]}
              ELSE IF v.g = "map" THEN {[p |-> ".nope", v |-> Err("no such key")], [p |-> "[\"nope\"]", v |-> Err("no such key")]}
+             \* a position past the end of a slice (of an empty or nil slice: position 0): a defined result or an error, never a crash
+             ELSE IF v.g = "slice" THEN {[p |-> "[" \o ToString(Len(v.es)) \o "]", v |-> Unspec], [p |-> "[-1]", v |-> Unspec]}
+             ELSE IF v.g = "nilslice" THEN {[p |-> "[0]", v |-> Unspec]}
              ELSE IF v.g = "embedded" /\ v.u = "unexported" THEN {[p |-> ".base", v |-> Err("unexported field is not reachable")]}
              ELSE {}
 \* what a node is, beyond how it prints: its truth value (C02) and, for arrays, its length
